@@ -25,9 +25,12 @@ def pairs(ctx):
     rng = ctx.rng
     n = 12000 if ctx.quick else 300000
     A = [0.05, 0.1, 0.2, 0.29999, 0.3, 0.30001, 0.5, 0.75, 0.999, 1 - 1e-8, 1 - 0.99e-8, 1.0, 1 + 0.99e-8, 1 + 1e-8, 1 + 1.01e-8,
-         1.001, 1.5, 2.0, 2.5, 3.0, 5.0, 10.0, 25.0, 50.0, 75.0, 99.9, 100.0]
+         1.001, 1.5, 2.0, 2.5, 3.0, 5.0, 10.0, 25.0, 50.0, 75.0, 99.9, 100.0,
+         # around the a ~ 1 closed form: just outside the 1e-8 window the general branch must be taken
+         1 - 2e-8, 1 + 2e-8, 1 - 5e-8, 1 + 5e-8, 1 - 8e-8, 1 + 8e-8, 1 - 1e-7, 1 + 1e-7, 1 - 3e-7, 1 + 1e-6, 1 - 1e-5, 1 + 1e-4, 1 - 1e-3, 1 + 5e-3, 1 - 1e-2,
+         0.06, 0.07, 0.15, 0.4, 0.6, 0.9]
     out = []
-    fixed_p = [0.0, 5e-324, 2.0 ** -54, 2.0 ** -53, 1e-300, 1e-20, 1e-9, 0.5, 0.5 - 2.0 ** -54, 0.5 + 2.0 ** -53, 1 - 2.0 ** -53, 1 - 2.0 ** -52, 1 - 1e-9]
+    fixed_p = [0.0, 5e-324, 2.0 ** -54, 2.0 ** -53, 1e-300, 1e-200, 1e-170, 1e-100, 1e-60, 1e-30, 1e-17, 7e-17, 1e-20, 1e-9, 0.05, 0.125, 0.43, 0.5, 0.5 - 2.0 ** -54, 0.5 + 2.0 ** -53, 1 - 2.0 ** -53, 1 - 2.0 ** -52, 1 - 1e-9]
     for a in A:
         for p in fixed_p:
             out.append((a, p))
@@ -105,7 +108,11 @@ def run(ctx):
                                       ([(0, 1), (0, 1)], [1.0, 1.0], [True, True], [0, 1], 2),
                                       ([(0, 1), (0, 1)], [1.25, 1.25], [True, True], [0, 1], 3),
                                       ([(0, 1), (1, 2), (2, 0)], [1.0 + 1e-9 / 3] * 3, [False] * 3, [0, 1, 2], 4),
-                                      ([(0, 1), (0, 1)], [1.5, 1.5], [True, False], [0, 1], 2)):
+                                      ([(0, 1), (0, 1)], [1.5, 1.5], [True, False], [0, 1], 2),
+                                      # small degrees of divergence: the iteration fails (GammaError) on whole windows of p
+                                      ([(0, 1), (0, 1)], [0.78, 0.78], [True, True], [0, 1], 3),      # dod 0.06
+                                      ([(0, 1), (0, 1)], [0.775, 0.775], [True, True], [0, 1], 3),    # dod 0.05
+                                      ([(0, 1), (1, 2), (2, 0)], [0.53, 0.53, 0.53], [True] * 3, [0, 1, 2], 3)):   # dod 0.09
         dod, Lf, table = O.table_oracle(edges, w, massive, ext, D)
         special.append(dict(edges=edges, weights=w, massive=massive, ext=ext, D=D, table=table, dod=dod, loops=Lf, accepted=True, name="special_dod"))
     built = S.build_tables(special)
@@ -113,8 +120,11 @@ def run(ctx):
         if b.get("status") != "ok":
             continue
         routing = S.make_routing(ctx.rng, c, "fundamental")
-        for kind in ("uniform", "uniform", "corner", "edge1"):
-            xs = S.point(ctx.rng, b["numVars"], kind)
+        small_dod = float(c["dod"]) < 0.2
+        for kind in ("uniform", "uniform", "corner", "edge1") + (("lambda_grid",) * 40 if small_dod else ()):
+            xs = S.point(ctx.rng, b["numVars"], "uniform" if kind == "lambda_grid" else kind)
+            if kind == "lambda_grid":
+                xs[2 * len(c["edges"]) - 2] = ctx.rng.choice([ctx.rng.random(), ctx.rng.random() ** 3, 0.125, 0.25, 0.0625, 1e-3, 9.25e-4, 0.5])
             ss.append(dict(case=c, routing=routing, table=b["table"], built=b, xs=xs, kind=kind, group=None,
                            req=S.sample_request(c, routing, b["table"], xs)))
     S.run(ss)
